@@ -275,7 +275,10 @@ pub fn jenkins_hashlittle2(filename: &str, hash_bits: u32) -> (u64, u8) {
     let full_hash = ((primary as u64) << 32) | (secondary as u64);
 
     // Calculate masks
-    let (and_mask, or_mask) = if hash_bits < 64 {
+    // The width can come from a table header (BET hash size), so every value is handled
+    let (and_mask, or_mask) = if hash_bits == 0 {
+        (0, 0)
+    } else if hash_bits < 64 {
         let and_mask = (1u64 << hash_bits) - 1;
         let or_mask = 1u64 << (hash_bits - 1);
         (and_mask, or_mask)
@@ -288,7 +291,7 @@ pub fn jenkins_hashlittle2(filename: &str, hash_bits: u32) -> (u64, u8) {
 
     // Extract NameHash1
     let name_hash1 = if hash_bits < 64 {
-        ((file_name_hash >> (hash_bits - 8)) & 0xFF) as u8
+        ((file_name_hash >> hash_bits.saturating_sub(8)) & 0xFF) as u8
     } else {
         ((file_name_hash >> 56) & 0xFF) as u8
     };
